@@ -183,6 +183,8 @@ func (o op) String() string {
 		return fmt.Sprintf("change(u%d,[t%d,t%d])", o.uri, o.text0, o.text)
 	case "symbols":
 		return fmt.Sprintf("symbols(u%d)", o.uri)
+	case "change0":
+		return fmt.Sprintf("change-with-no-content-changes(u%d)", o.uri)
 	}
 	return fmt.Sprintf("%s(u%d,p%d)", o.kind, o.uri, o.pos)
 }
@@ -202,6 +204,9 @@ func params(o op, text func(i int) string, positions [][2]int) (string, any) {
 		// the current text of the document with different trailing blanks (or, for a document that
 		// is not open yet, the plain text with them)
 		return "textDocument/didChange", map[string]any{"textDocument": map[string]any{"uri": uriOf(o.uri), "version": 4}, "contentChanges": []any{map[string]any{"text": wsText}}}
+	case "change0":
+		// a change notification that carries no content change: the document stays what it was
+		return "textDocument/didChange", map[string]any{"textDocument": map[string]any{"uri": uriOf(o.uri), "version": 5}, "contentChanges": []any{}}
 	case "openplain":
 		// the same text on every URI (no version marker)
 		plainText = baseTexts[o.text]
@@ -439,7 +444,7 @@ func alphabet() []op {
 		for p := 0; p < 2; p++ {
 			a = append(a, op{kind: "hover", uri: u, pos: p}, op{kind: "definition", uri: u, pos: p})
 		}
-		a = append(a, op{kind: "symbols", uri: u})
+		a = append(a, op{kind: "symbols", uri: u}, op{kind: "change0", uri: u})
 	}
 	return a
 }
@@ -512,7 +517,7 @@ func runC19(c *fw.Ctx) {
 		for j := range ops {
 			o := op{uri: r.Intn(4), text: []int{0, 1, 2, 3, 6, 6}[r.Intn(6)], text0: r.Intn(4), pos: r.Intn(len(histPositions))}
 			o.uri = r.Intn(len(uriShapes))
-			o.kind = r.Pick("open", "openplain", "change", "change", "change2", "changews", "changews", "hover", "hover", "definition", "symbols")
+			o.kind = r.Pick("open", "openplain", "change", "change", "change2", "changews", "changews", "hover", "hover", "definition", "symbols", "change0")
 			if o.kind == "openplain" {
 				o.text = []int{0, 1, 4, 5}[r.Intn(4)]
 			}
